@@ -157,7 +157,7 @@ theorem bounded_context_always_returns (p : Plan) (hwf : p.WF) (hc : p.ctxEnds =
   · rw [h.1] at hc; exact absurd hc (by decide)
 
 /-- the placement of finding F12a: one upload file, authentication fails -/
-def f12aPlan : Plan := { files := [⟨2, false⟩], mpMT := true, auth := .fail }
+def f12aPlan : Plan := { files := [{ reads := 2, fails := false }], mpMT := true, auth := .fail }
 
 example : f12aPlan.WF ∧ f12aPlan.ctxEnds = true := by decide
 /-- … on the repaired code its maximal execution returns the auth error, the goroutine is gone and
@@ -232,7 +232,7 @@ theorem ok_only_if_complete (p : Plan) (hwf : p.WF) (s : St) (hr : Reach p s) (h
   · have := hJ.rk; simp [hph] at this; exact this hh
 
 /-- non-vacuity of F6: a plain upload of two files with reuse on ends `ok` -/
-example : (predictSt { files := [⟨2, false⟩, ⟨0, false⟩], form := 1, resp := .headers 2 .eof, reuse := true }).res
+example : (predictSt { files := [{ reads := 2, fails := false }, { reads := 0, fails := false }], form := 1, resp := .headers 2 .eof, reuse := true }).res
     = some .none := by decide
 
 /-- F7: a failing upload source — a file of the multipart form or a stream payload — is NEVER
@@ -267,16 +267,28 @@ theorem failing_source_never_ok (p : Plan) (hwf : p.WF)
     | run t => simp [G.alive, hgs] at hg
   · have := hJ.sf hpast; simp [hf] at this
 
-example : ({ files := [⟨2, false⟩, ⟨1, true⟩], mpMT := true } : Plan).files.any (·.fails) = true := by decide
+example : ({ files := [{ reads := 2, fails := false }, { reads := 1, fails := true }], mpMT := true } : Plan).files.any (·.fails) = true := by decide
 
 /-- F7a: with the sniffing buffer filled by `io.ReadFull` (window `w`), a source that fails within the
 window fails BEFORE the part header is written: the writer's script for that file is the failing
 read alone. -/
-theorem readfull_failure_precedes_the_part_header (w : Nat) (s : Src) (hf : s.fails = true) (hr : s.reads < w) :
+theorem readfull_failure_precedes_the_part_header (w : Nat) (s : Src) (hf : s.fails = true) (hs : s.soft = false)
+    (hr : s.reads < w) :
     fileScriptW true w s = [.fail] := by
-  simp [fileScriptW, hf, hr]
+  simp [fileScriptW, hf, hs, hr]
 
-example : fileScript ⟨3, true⟩ = [.fail] ∧ fileScript ⟨3, false⟩ = [.w, .w] ∧ fileScript ⟨0, false⟩ = [.w] := by decide
+/-- F7a': a source whose own error is `io.ErrUnexpectedEOF` passes the sniff as a short file; the
+failure is met again by the copy, AFTER the part header and the sniffed prefix: it is the last action of
+the file's script, never dropped. -/
+theorem soft_failure_surfaces_after_the_prefix (w : Nat) (s : Src) (hf : s.fails = true) (hs : s.soft = true)
+    (hr : s.reads < w) :
+    fileScriptW true w s = .w :: ((if s.reads == 0 then [] else [.w]) ++ [.fail]) := by
+  simp [fileScriptW, hf, hs, hr]
+
+example : fileScript { reads := 3, fails := true, soft := true } = [.w, .w, .fail] ∧
+    fileScript { reads := 0, fails := true, soft := true } = [.w, .fail] := by decide
+
+example : fileScript { reads := 3, fails := true } = [.fail] ∧ fileScript { reads := 3, fails := false } = [.w, .w] ∧ fileScript { reads := 0, fails := false } = [.w] := by decide
 
 /-- F7b: whichever way the sniffing buffer is filled, the script of a failing file ends with its
 failing read, and the script of a healthy file has none: the writer never drops a failure and never
